@@ -190,9 +190,11 @@ struct C03Model : mcx::Model {
         Inst *I = new Inst; I->in.create(44100); OPN2_MIDIPlayer *d = I->in.dev; const std::string &s = starts[st];
         if(s != "fresh") { opn2_setNumChips(d, s == "drums2chips" ? 2 : 1); opn2_openBankData(d, g_bank.data(), (long)g_bank.size()); if(subset == "banks") I->refbanks = {0, 1}; /* the loaded file holds melodic 0/0 and percussion 0/0 */ }
         static short buf[8192];
-        if(s == "smf-half") { opn2_openData(d, g_smf.data(), (unsigned long)g_smf.size()); opn2_play(d, 8000, buf); }
-        else if(s == "xmi") opn2_openData(d, g_xmi.data(), (unsigned long)g_xmi.size());
-        else if(s == "rsxx") { opn2_openData(d, g_rsxx.data(), (unsigned long)g_rsxx.size()); opn2_play(d, 2000, buf); }
+        // a start state that silently failed to load its song would make the exploration from it vacuous: hard error
+        auto must = [&](int rc, const char *what) { if(rc != 0) { fprintf(stderr, "[c03] start state '%s': %s was rejected: %s\n", s.c_str(), what, opn2_errorInfo(d)); abort(); } };
+        if(s == "smf-half") { must(opn2_openData(d, g_smf.data(), (unsigned long)g_smf.size()), "the SMF seed"); opn2_play(d, 8000, buf); }
+        else if(s == "xmi") must(opn2_openData(d, g_xmi.data(), (unsigned long)g_xmi.size()), "the XMI seed");
+        else if(s == "rsxx") { must(opn2_openData(d, g_rsxx.data(), (unsigned long)g_rsxx.size()), "the RSXX seed"); if(!I->in.synth().setupLocked()) must(-1, "the RSXX seed (setup not locked)"); opn2_play(d, 2000, buf); }
         else if(s == "drums2chips") { for(int k = 0; k < 7; k++) opn2_rt_noteOn(d, 9, (OPN2_UInt8)(35 + k), 120); I->in.generate_ms(10); }
         else if(s == "busy1chip") { opn2_rt_controllerChange(d, 1, 64, 127); for(int k = 0; k < 5; k++) opn2_rt_noteOn(d, 1, (OPN2_UInt8)(50 + k), 100); opn2_rt_noteOff(d, 1, 51); }
         return I;
